@@ -34,9 +34,16 @@
 (*    ascending, suspicion S1); FALSE is the documented order.  Equal      *)
 (*    mirrors may come out in any order (the comparator is not a strict    *)
 (*    weak order there).                                                   *)
-(*  - no throttle (C17), no context cancellation, no reqFreq rate limit,   *)
-(*    no TLS; auth is reduced to the three reactions of HandleResponse     *)
-(*    (new challenge: immediate retry; stale; unusable: drop the host);    *)
+(*  - the throttle (internal/pqueue, C17) is reduced to a slot counter per  *)
+(*    host: Attempt needs a free slot (Acquire), gives it back on failure  *)
+(*    and keeps it on success in resp.throttleDone until Close.  As in the *)
+(*    code, a later next() of the same Resp (resume after an early end,    *)
+(*    Seek) acquires again and overwrites throttleDone, so the earlier     *)
+(*    slot is never returned (FixLeak = FALSE); Blocked is the state where *)
+(*    Acquire can never succeed.  No context cancellation, no reqFreq      *)
+(*    rate limit, no TLS; auth is reduced to the three reactions of        *)
+(*    HandleResponse (new challenge: immediate retry; stale; unusable:     *)
+(*    drop the host);                                                      *)
 (*    APIOpts disableHead, BodyFunc errors (ErrNotRetryable) and a stale   *)
 (*    Retry-After header seen by backoffSet after a failed UpdateRequest   *)
 (*    are left out.                                                        *)
@@ -56,6 +63,8 @@ CONSTANTS Hosts,      \* host names (strings)
           MaxFaults,  \* environment budget: non-ok replies per behaviour
           MaxSeeks,   \* caller budget
           PrioAsc,    \* TRUE: as the code sorts; FALSE: as documented
+          Conc,       \* throttle slots per host (config.Host.ReqConcurrent)
+          FixLeak,    \* FALSE: as the code (a re-entered next() keeps the slot of the open body)
           Confs       \* configurations explored (chosen in Init)
 
 VARIABLES conf,   \* [R, dmax, prio : Hosts -> Nat, req : Ids -> [meth, nomir, ie, expect]]
@@ -74,8 +83,8 @@ Perms(S) == {s \in [1..Cardinality(S) -> S] : \A i, j \in 1..Cardinality(S) : i 
 DropAt(s, i) == [j \in 1..(Len(s) - 1) |-> IF j < i THEN s[j] ELSE s[j + 1]]
 
 RespZero == [st |-> "new", retry |-> 0, rcur |-> 0, rmax |-> 0, done |-> FALSE, has |-> FALSE,
-             avail |-> 0, short |-> FALSE, mirror |-> Up, hasra |-> FALSE]
-HostZero == [cur |-> 0, last |-> 0, reset |-> 0, realm |-> FALSE]
+             avail |-> 0, short |-> FALSE, mirror |-> Up, hasra |-> FALSE, slot |-> "none"]
+HostZero == [cur |-> 0, last |-> 0, reset |-> 0, realm |-> FALSE, act |-> 0]
 
 Mut(id) == conf.req[id].meth \in {"PUT", "DELETE"}
 Bit(b) == IF b THEN 1 ELSE 0
@@ -112,7 +121,7 @@ HostSet(id) == IF conf.req[id].nomir THEN {Up} ELSE Hosts
 \* ------------------------------------------------------------- events
 EvDo(id)      == [ev |-> "do", id |-> id, mut |-> Bit(Mut(id)), nomir |-> Bit(conf.req[id].nomir),
                   ie |-> Bit(conf.req[id].ie), tc |-> now]
-EvSeek(id)    == [ev |-> "seek", id |-> id, tc |-> now]
+EvSeek(id, off) == [ev |-> "seek", id |-> id, tc |-> now, off |-> off]
 EvRead(id)    == [ev |-> "read", id |-> id, tc |-> now]
 EvRet(id, c, ok) == [ev |-> "ret", id |-> id, call |-> c, ok |-> Bit(ok), eq |-> 1]
 EvCut(id, h)  == [ev |-> "cut", id |-> id, h |-> h, t |-> now]
@@ -128,7 +137,8 @@ PKind(k) == CASE k \in {"ok", "ok206"} -> "ok"
               [] OTHER -> "other"
 EvAtt(id, h, t, k) == [ev |-> "att", id |-> id, h |-> h, ta |-> t, tr |-> t, k |-> PKind(k),
                        ra |-> IF k = "s429ra" THEN RA ELSE 0, mut |-> Bit(Mut(id)),
-                       mir |-> Bit(~conf.req[id].nomir /\ ~Mut(id)), sig |-> Sig(id), inj |-> Bit(PKind(k) # "ok")]
+                       mir |-> Bit(~conf.req[id].nomir /\ ~Mut(id)), sig |-> Sig(id), inj |-> Bit(PKind(k) # "ok"),
+                       raw |-> k]
 
 \* --------------------------------------------------------------- init
 Init == /\ conf \in Confs
@@ -157,10 +167,12 @@ Seek(id, off) ==
   /\ conf.req[id].meth = "GET" /\ off # rs[id].rcur
   /\ \E s \in Sorted(HostSet(id), now) :
        call' = [EnterCall(id, "seek") EXCEPT !.hosts = s]
-  /\ rs' = [rs EXCEPT ![id].st = "busy", ![id].rcur = off, ![id].retry = @ - 1]
+  /\ rs' = [rs EXCEPT ![id].st = "busy", ![id].rcur = off, ![id].retry = @ - 1,
+                       ![id].slot = IF FixLeak THEN "none" ELSE @]
+  /\ hs' = IF FixLeak /\ rs[id].slot # "none" THEN [hs EXCEPT ![rs[id].slot].act = @ - 1] ELSE hs
   /\ ns' = ns + 1
-  /\ obs' = <<EvSeek(id)>>
-  /\ UNCHANGED <<conf, now, hs, nf>>
+  /\ obs' = <<EvSeek(id, off)>>
+  /\ UNCHANGED <<conf, now, nf>>
 
 \* the caller reads until EOF or error
 ReadAll(id) ==
@@ -193,12 +205,19 @@ Offered(id, range) ==
      /\ k \in {"ok", "short0", "short1", "okclbad"} => ~range
      /\ k \in {"ok206", "ok200", "short206"} => range
      /\ k \in {"short0", "short1", "short206", "ok200", "ok206", "okclbad"} => conf.req[id].meth = "GET"
+     /\ k \in {"ok206", "short206"} => rs[id].rcur < N    \* "bytes=N-N" is not satisfiable: 416
      /\ k = "short1" => N > 1
      /\ k = "okclbad" => conf.req[id].expect}
+
+NextHost == call.hosts[IF call.ci > Len(call.hosts) THEN 1 ELSE call.ci]
+Blocked == /\ call.kind # "none" /\ call.ph = "next"
+           /\ call.hosts # <<>> /\ rs[call.id].retry <= conf.R
+           /\ hs[NextHost].act >= Conc
 
 Attempt ==
   /\ call.kind # "none" /\ call.ph = "next"
   /\ call.hosts # <<>> /\ rs[call.id].retry <= conf.R
+  /\ hs[NextHost].act < Conc                    \* h.throttle.Acquire
   /\ LET id    == call.id
          r     == rs[id]
          ci    == IF call.ci > Len(call.hosts) THEN 1 ELSE call.ci
@@ -224,12 +243,12 @@ Attempt ==
         IN /\ (k # "ok" /\ k # "ok206") => nf < MaxFaults
            /\ nf' = IF k \in {"ok", "ok206"} THEN nf ELSE nf + 1
            /\ now' = t
-           /\ hs' = [hs EXCEPT ![h] = IF good THEN bg.h ELSE hst2]
+           /\ hs' = [hs EXCEPT ![h] = IF good THEN [bg.h EXCEPT !.act = @ + 1] ELSE hst2]
            /\ obs' = <<EvAtt(id, h, t, k)>> \o (IF good /\ call.kind # "read" THEN <<EvRet(id, call.kind, TRUE)>> ELSE <<>>)
            /\ IF good
               THEN \* success: the body is open; Content-Length fixes readMax on a fresh read
                    /\ rs' = [rs EXCEPT ![id] = [r EXCEPT !.retry = @ + 1, !.mirror = h, !.has = TRUE,
-                                                        !.done = FALSE, !.hasra = FALSE,
+                                                        !.done = FALSE, !.hasra = FALSE, !.slot = h,
                                                         !.rmax = IF r.rcur = 0 /\ conf.req[id].meth = "GET" THEN N ELSE @,
                                                         !.avail = IF conf.req[id].meth = "GET" THEN deliver ELSE 0,
                                                         !.short = k \in {"short0", "short1", "short206"},
@@ -258,14 +277,18 @@ Consume ==
              /\ call' = NoCall
              /\ obs' = <<EvRet(id, "read", TRUE)>>
         ELSE \* early end: backoffSet, then next() with a Range header
-             LET set == BackoffSet(hs[h], now, r.hasra) IN
-             /\ hs' = [hs EXCEPT ![h] = set.h]
+             LET set == BackoffSet(hs[h], now, r.hasra)
+                 rel == FixLeak /\ ~set.lim /\ r.slot # "none"
+                 hs1 == [hs EXCEPT ![h] = set.h]
+             IN
+             /\ hs' = IF rel THEN [hs1 EXCEPT ![r.slot].act = @ - 1] ELSE hs1
              /\ IF set.lim
                 THEN /\ rs' = [rs EXCEPT ![id] = [r EXCEPT !.rcur = rc, !.avail = 0, !.short = FALSE,
                                                           !.done = TRUE, !.st = "broken"]]
                      /\ call' = NoCall
                      /\ obs' = <<EvCut(id, h), EvRet(id, "read", FALSE)>>
-                ELSE /\ rs' = [rs EXCEPT ![id] = [r EXCEPT !.rcur = rc, !.avail = 0, !.short = FALSE]]
+                ELSE /\ rs' = [rs EXCEPT ![id] = [r EXCEPT !.rcur = rc, !.avail = 0, !.short = FALSE,
+                                                          !.slot = IF rel THEN "none" ELSE @]]
                      /\ \E s \in Sorted(HostSet(id), now) :
                           call' = [call EXCEPT !.ph = "next", !.hosts = s, !.ci = 1, !.err = FALSE]
                      /\ obs' = <<EvCut(id, h)>>
@@ -274,8 +297,9 @@ Consume ==
 \* ----------------------------------------------------------- Resp.Close
 Close(id) ==
   /\ call = NoCall /\ rs[id].st \in {"open", "broken", "failed"}
-  /\ hs' = [hs EXCEPT ![rs[id].mirror] = IF rs[id].has /\ ~rs[id].done THEN BackoffReset(@) ELSE @]
-  /\ rs' = [rs EXCEPT ![id].st = "closed", ![id].done = TRUE]
+  /\ LET h1 == [hs EXCEPT ![rs[id].mirror] = IF rs[id].has /\ ~rs[id].done THEN BackoffReset(@) ELSE @]
+     IN hs' = IF rs[id].slot = "none" THEN h1 ELSE [h1 EXCEPT ![rs[id].slot].act = @ - 1]
+  /\ rs' = [rs EXCEPT ![id].st = "closed", ![id].done = TRUE, ![id].slot = "none"]
   /\ obs' = <<[ev |-> "note", what |-> "close", id |-> id]>>
   /\ UNCHANGED <<conf, now, call, nf, ns>>
 
@@ -295,11 +319,13 @@ Spec == Init /\ [][Next]_vars /\ WF_vars(LoopExit \/ Attempt \/ Consume)
 
 \* ------------------------------------------------- properties of (D) itself
 TypeOK == /\ now \in Nat /\ nf \in 0..MaxFaults /\ ns \in 0..MaxSeeks
-          /\ \A h \in Hosts : hs[h].cur \in Nat /\ hs[h].last \in Nat /\ hs[h].reset \in 0..5
+          /\ \A h \in Hosts : hs[h].cur \in Nat /\ hs[h].last \in Nat /\ hs[h].reset \in 0..5 /\ hs[h].act \in 0..Conc
           /\ \A i \in Ids : rs[i].rcur \in 0..N /\ rs[i].avail \in 0..N
 \* O1 on the design: the attempt counter never passes the limit (+1), whatever was answered
 RetryBound == \A i \in Ids : rs[i].retry <= conf.R + 1
 \* O2: every call returns
 CallsReturn == (call.kind # "none") ~> (call.kind = "none")
+\* O2: Acquire never waits for a slot that only this caller could return
+NoThrottleBlock == ~Blocked
 Quiet == call = NoCall
 =============================================================================
